@@ -457,17 +457,16 @@ impl<T: BitWrite> PackedWrite for T {
         upper_bound: i64,
         value: i64,
     ) -> Result<(), Error> {
+        if value < lower_bound || value > upper_bound {
+            return Err(ErrorKind::ValueNotInRange(value, lower_bound, upper_bound).into());
+        }
         let range = upper_bound - lower_bound;
         if range > 0 {
-            if value < lower_bound || value > upper_bound {
-                Err(ErrorKind::ValueNotInRange(value, lower_bound, upper_bound).into())
-            } else {
-                self.write_non_negative_binary_integer(
-                    None,
-                    Some(range as u64),
-                    (value - lower_bound) as u64,
-                )
-            }
+            self.write_non_negative_binary_integer(
+                None,
+                Some(range as u64),
+                (value - lower_bound) as u64,
+            )
         } else {
             Ok(())
         }
